@@ -303,6 +303,35 @@ func hostile(p plan, n int, port, tport int, rng *rand.Rand, hs *hostileStats) {
 			}
 		}
 		hs.hold(t.c)
+	case "kick":
+		// the hostile operator disconnects (val: without ban / temporary ban / permanent ban) another hostile user that
+		// is logged in with an ordinary account; afterwards registry and counters must still add up
+		v, err := loginTCP(src, port, "pleb", "", fmt.Sprintf("victim-%d", n))
+		if err != nil {
+			atomic.AddInt64(&hs.failedDial, 1)
+			return
+		}
+		hs.hold(v.c)
+		o, err := loginTCP(net.IPv4(127, 100, byte(n>>8), byte(n)), port, "op", "op", fmt.Sprintf("kicker-%d", n))
+		if err != nil {
+			atomic.AddInt64(&hs.failedDial, 1)
+			return
+		}
+		defer o.c.Close()
+		rep, err := o.request(5*time.Second, sim.TGetUserNameList)
+		if err != nil {
+			return
+		}
+		for _, u := range rep.GetAll(sim.FUsernameWithInfo) {
+			if len(u) >= 8 && string(u[8:]) == fmt.Sprintf("victim-%d", n) {
+				f := []sim.F{sim.Fld(sim.FUserID, u[0:2])}
+				if p.Val%3 > 0 {
+					f = append(f, sim.Fld(sim.FOptions, sim.U16(p.Val%3)))
+				}
+				_, _ = o.request(5*time.Second, sim.TDisconnectUser, f...)
+			}
+		}
+		drain(v.c, 1500*time.Millisecond) // the victim is closed about a second later
 	case "lurker":
 		// a logged-in client that gives itself odd user info (icon of 0 / 1 / 3 / 4 bytes, empty or very long name,
 		// one-byte options) and then just stays: every later user list, chat join or info request of the others
@@ -547,7 +576,7 @@ func runParent(args []string) error {
 	}
 	rng := rand.New(rand.NewSource(*seed))
 	muts := []string{"trunc", "total", "datasz", "count", "flen", "dropfield", "shortid", "garbage", "badhs", "size", "dup"}
-	sess := []string{"ctl", "ctl", "adm", "adm", "scan", "lurker", "prelogin", "upload", "download", "fupload", "fdownload"}
+	sess := []string{"ctl", "ctl", "adm", "adm", "scan", "lurker", "kick", "prelogin", "upload", "download", "fupload", "fdownload"}
 	plans = append([]plan{{Sess: "nonreader", Mut: "none", Val: 0}, {Sess: "nonreader", Mut: "none", Val: 1}}, plans...)
 	for i := 0; i < *fuzz; i++ {
 		plans = append(plans, plan{Sess: sess[rng.Intn(len(sess))], Frame: 1 + rng.Intn(24), Mut: muts[rng.Intn(len(muts))], Val: rng.Intn(9)})
